@@ -1,4 +1,5 @@
 import SyneTune.Lemmas.HBContractK2
+import SyneTune.Lemmas.HBPickSpec
 import SyneTune.Props.C14
 /- Preservation of `KInv` by every scheduler operation (ASHA / PASHA). -/
 namespace SyneTune
@@ -29,7 +30,7 @@ theorem cleanup_KInv (s : Sched) (tid : Nat) (d : Decision) (hd : d ≠ .continu
     KInv (s.cleanup tid d) := by
   obtain ⟨f1, f2, f3, f4⟩ := taskRemove_fields s.mgr tid
   unfold Sched.cleanup
-  refine ⟨by simp only [f1]; exact h.plain, ?_, by simp only [f3]; exact h.nodup, f4 h.runok⟩
+  refine ⟨by simp only [f1]; exact h.pr, ?_, by simp only [f3]; exact h.nodup, f4 h.runok⟩
   intro t ht
   simp only [f3] at ht
   obtain ⟨rec, hr, hdec⟩ := h.paused t ht
@@ -49,7 +50,7 @@ theorem getElem?_set_self' {α} (l : List α) (i : Nat) (x y : α) (h : l[i]? = 
 
 /-- `on_task_schedule` for plain promotion types -/
 theorem taskSchedule_plain (g g' : Manager) (bracket : Nat) (hint : Option Nat) (so : Option SchedOut)
-    (ms : Nat) (fr : Bool) (hty : g.type.plain) (h : g.taskSchedule bracket hint = .ok (g', so, ms, fr)) :
+    (ms : Nat) (fr : Bool) (hty : g.type.pauseResume = true) (h : g.taskSchedule bracket hint = .ok (g', so, ms, fr)) :
     g'.type = g.type ∧ g'.taskInfo = g.taskInfo ∧
     ((∀ sys ∈ g.systems, RunOK sys) → ∀ sys ∈ g'.systems, RunOK sys) ∧
     (match so with
@@ -59,7 +60,7 @@ theorem taskSchedule_plain (g g' : Manager) (bracket : Nat) (hint : Option Nat) 
   cases hs : g.systems[(g.sysFor bracket).1]? with
   | none => simp [hs] at h
   | some sys =>
-    simp only [hs, plain_pauseResume hty, not_true_eq_false, if_false] at h
+    simp only [hs, hty, not_true_eq_false, if_false] at h
     have hrun : ∀ sys' : RungSys, sys'.running = sys.running →
         (∀ y ∈ g.systems, RunOK y) → ∀ y ∈ (g.setSys (g.sysFor bracket).1 sys').systems, RunOK y := by
       intro sys' hr hall y hy
@@ -78,7 +79,7 @@ theorem taskSchedule_plain (g g' : Manager) (bracket : Nat) (hint : Option Nat) 
       simp only
       apply unpromotedSys_set_same g.systems _ sys _ hs
       unfold RungSys.promoSchedule at hout ⊢
-      exact (promoScan_plain_none g.type hty g.mode sys.numThr (sys.cap g.type) hint sys.maxT sys.thresholds sys.rungs hout).2
+      exact (promoScan_unpromoted_any g.type g.mode sys.numThr (sys.cap g.type) hint sys.maxT sys.thresholds sys.rungs).2 hout
     | some o =>
       simp only [hout] at h
       injection h with h
@@ -89,7 +90,7 @@ theorem taskSchedule_plain (g g' : Manager) (bracket : Nat) (hint : Option Nat) 
       simp only
       apply unpromotedSys_set_del g.systems _ sys _ o.trial hs
       unfold RungSys.promoSchedule at hout ⊢
-      exact promoScan_unpromoted g.type hty g.mode sys.numThr (sys.cap g.type) hint sys.maxT sys.thresholds sys.rungs o hout
+      exact (promoScan_unpromoted_any g.type g.mode sys.numThr (sys.cap g.type) hint sys.maxT sys.thresholds sys.rungs).1 o hout
 
 /-- `on_task_add` changes only `_running` of one system and `_task_info` -/
 theorem taskAdd_fields (g g' : Manager) (tid bracket : Nat) (resume : Option (Nat × Nat)) (first : Nat)
